@@ -72,3 +72,36 @@ pub fn permutations(n: usize) -> Vec<Vec<usize>>
 	rec(&mut Vec::new(), &mut vec![false; n], n, &mut out);
 	out
 }
+
+/// All .pn files of /repo's working tree (corpus), sorted.
+pub fn corpus_files() -> Vec<String>
+{
+	fn walk(dir: &std::path::Path, out: &mut Vec<String>)
+	{
+		let Ok(rd) = std::fs::read_dir(dir)
+		else
+		{
+			return;
+		};
+		for e in rd.flatten()
+		{
+			let p = e.path();
+			let name = p.file_name().map(|n| n.to_string_lossy().to_string()).unwrap_or_default();
+			if p.is_dir()
+			{
+				if name != "target" && name != ".git"
+				{
+					walk(&p, out);
+				}
+			}
+			else if name.ends_with(".pn")
+			{
+				out.push(p.to_string_lossy().to_string());
+			}
+		}
+	}
+	let mut out = Vec::new();
+	walk(std::path::Path::new("/repo"), &mut out);
+	out.sort();
+	out
+}
